@@ -2,7 +2,7 @@
 
 PROP = {
     "pkg": "internal/filtering",
-    "files": ["filtering/c15_model_test.go", "filtering/c15_parser_test.go", "filtering/c15_refresh_test.go", "filtering/c15_admin_test.go",
+    "files": ["filtering/c15_model_test.go", "filtering/c15_parser_test.go", "filtering/c15_refresh_test.go", "filtering/c15_admin_test.go", "filtering/c15_rebuild_test.go",
               "filtering/c15_regress_test.go"],
     "level": "exploration",
     "technique": "property-based testing (rapid): reference model of the list normal form and of 'last successfully "
@@ -40,6 +40,7 @@ PROP = {
         ("TestVFC15ParserAfterManyRules", (1500, 10000)),
         ("TestVFC15Refresh", (300, 1500), {"steps": 8, "shards": (4, 16)}),
         ("TestVFC15RefreshVsAdmin", (120, 800), {"shards": (2, 16)}),
+        ("TestVFC15RefreshVsRebuildInProgress", (2, 6), {"shards": (1, 4)}),
     ],
     "plain": ["TestVFC15RegressOtherKindAllFailed", "TestVFC15RegressFirstRefreshOtherKindFailed",
               "TestVFC15RegressSameKindMixed"],
